@@ -216,6 +216,23 @@ func genV6(rng *rand.Rand) string {
 	if rng.IntN(12) == 0 {
 		return genV6Long(rng)
 	}
+	if rng.IntN(16) == 0 {
+		// a well-known textual prefix (IPv4-mapped, NAT64, IPv4-compatible, 6to4 …) in either case,
+		// then zero to six more groups, then an IPv4 tail or a last group, then perhaps a zone
+		s := pick(rng, "::ffff:", "::ffff:", "::FFFF:", "0::ffff:", "::ffff:0:", "64:ff9b::", "64:ff9b:1::", "::", "2002:", "2001:db8::", "fe80::", "0:0:0:0:0:ffff:")
+		for k := rng.IntN(7); k > 0; k-- {
+			s += fmt.Sprintf("%x:", rng.IntN(0x10000))
+		}
+		if rng.IntN(3) > 0 {
+			s += genV4(rng)
+		} else {
+			s += fmt.Sprintf("%x", rng.IntN(0x10000))
+		}
+		if rng.IntN(6) == 0 {
+			s += "%" + pick(rng, "eth0", "1", "")
+		}
+		return s
+	}
 	nf := rng.IntN(10)
 	ell := -1
 	if rng.IntN(2) == 0 {
